@@ -443,7 +443,7 @@ Proof.
   { destruct (a_phase a); try reflexivity; rewrite Hc in Hph; try discriminate; destruct Hph; discriminate. }
   set (k := qcount s2) in *.
   set (sq := {| rd := rd s2; comstate := comstate s2; qcount := S k; rcpts := rcpts s2; mailfrom := mailfrom s2 |}) in H.
-  destruct (data_loop f o (rd sq) _) as [de r'] eqn:Edl.
+  destruct (data_loop f o _ (rd sq) _) as [de r'] eqn:Edl.
   (* the abstract state after the boundary *)
   set (ab := {| a_phase := PHelo; a_txn := None; a_stored := 0 |}).
   assert (Htr1 : trace_run o [Note (NData k); Reply 354] a = Some a).
@@ -463,7 +463,7 @@ Proof.
             Irel (relayclient sf) /\ comstate sf = helo_state (esmtp sf)
             /\ Rc (comstate sf) (mailfrom sf) (rcpts sf) (rcptcount sf) (goodrcpt sf) ab).
   { exact (Hfree r'). }
-  destruct de as [msg sz seen|l seen|l seen|big l| |].
+  destruct de as [msg sz seen|l seen|l seen|big l|lw| |].
   - (* end of data *)
     destruct Hfree1 as (HIf & Hcf & HRf).
     assert (Hho : trace_step o (Handoff (envelope (mailfrom (set_rd sq r')) (rcpts (set_rd sq r'))) msg) a = Some a).
@@ -479,6 +479,9 @@ Proof.
       rewrite <- Hcf. exact HRf.
     + destruct (Nat.leb QQ_PERM_LO code && Nat.leb code QQ_PERM_HI);
         inversion H; subst evs h s'; clear H; exists ab;
+        (split; [cbn [trace_run trace_step]; rewrite Htxn, Ers, Hphr; reflexivity|]);
+        (split; [exact HIf|]); (split; [reflexivity|exact HRf]).
+    + inversion H; subst evs h s'; clear H; exists ab;
         (split; [cbn [trace_run trace_step]; rewrite Htxn, Ers, Hphr; reflexivity|]);
         (split; [exact HIf|]); (split; [reflexivity|exact HRf]).
     + inversion H; subst evs h s'; clear H; exists ab;
@@ -506,6 +509,13 @@ Proof.
         (split; [exact HIf|]); (split; [reflexivity|exact HRf]).
     + inversion H; subst evs h s'; clear H.
       exists a. split; [exact Htr1|]. split; [cbn [set_rd relayclient sq]; now rewrite G8|].
+      simpl. discriminate.
+  - (* a write to qmail-queue failed *)
+    destruct (drain_break f r' lw) as [[alive rerr] r2]. destruct (Hfree r2) as (HIf & Hcf & HRf).
+    destruct alive; cbn [negb] in H; inversion H; subst evs h s'; clear H.
+    + exists ab. split; [cbn [trace_run trace_step]; rewrite Htxn, Ers, Hphr; reflexivity|].
+      split; [exact HIf|]. split; [reflexivity|exact HRf].
+    + exists a. split; [exact Htr1|]. split; [cbn [set_rd relayclient sq]; now rewrite G8|].
       simpl. discriminate.
   - inversion H; subst evs h s'; clear H.
     exists a. split; [exact Htr1|]. split; [cbn [set_rd relayclient sq]; now rewrite G8|].
